@@ -20,6 +20,20 @@ Definition np_diff_fs {A} (sub : A -> A -> A) (x : blk A) : blk A :=
 (* signal.lfilter(b, a, y, zi=zf, axis=-1): (plain array of the filtered samples, final state) *)
 Definition lfilter {F A} (filt : F -> A -> F * A) (zf : F) (y : blk A) : blk A * F :=
   let '(z, yf) := mapAccum filt zf (dat y) in (Blk yf (two y) None, z).
+(* second batch: rms, event_rate, transform, mc_reference, iirfilter *)
+Definition set_ch {A} (c : option (list Z)) (b : blk A) : blk A :=
+  Blk (dat b) (two b) (option_map (fun a => An (a_s0 a) (a_fsd a) c (a_md a)) (an b)).
+Definition py_last {X} (l : list X) : option X := match rev l with [] => None | x :: _ => Some x end.  (* l[-1]: IndexError *)
+Definition sum_len {A} (l : list (blk A)) : Z := fold_right (fun d acc => zlen (dat d) + acc) 0 l.
+(* np.mean(d ** 2, axis=-1) ** 0.5 for d reshaped to [.., n_blocks, n] (integer samples squared in double): one value per
+   block (abstract agg); PipelineData.mean divides fs and the float s0 by n (s0div); a reshaped 1-D array carries the
+   channel list [None] * n_blocks *)
+Definition rms_value {A O} (agg : list A -> O) (s0div : Z -> Z) (n n_blocks : Z) (d : blk A) : blk O :=
+  Blk (map agg (chop (Z.to_nat n_blocks) (Z.to_nat n) (dat d))) (two d)
+      (option_map (fun a => An (s0div (a_s0 a)) (a_fsd a * n)
+                               (if two d then a_ch a else Some (repeat 0 (Z.to_nat n_blocks))) (a_md a)) (an d)).
+(* function(data) for an elementwise function / matrix @ data (one column of all channels = one sample) *)
+Definition map_blk {A O} (g : A -> O) (x : blk A) : blk O := Blk (map g (dat x)) (two x) (an x).
 
 (* ---------------- pipeline.discard (line 1007) ---------------- *)
 Definition discard_gen_init {A : Type} (discard_samples : Z) : Z :=
@@ -262,6 +276,190 @@ Definition decimate_gen_step {F A : Type} (filt : F -> A -> F * A) (zf0 : F) (q 
     decimate_gen_body filt zf0 q s0 zf y_remainder chunk
   end.
 
+(* ---------------- pipeline.rms (line 498) ---------------- *)
+Definition rms_gen_body {A O : Type} (agg : list A -> O) (s0div : Z -> Z) (s0add : Z -> Z -> Z) (n : Z) (data : list (blk A)) (samples : Z) (out_s0 : option Z)
+  : option (option (list (blk A) * Z * option Z) * list (blk O)) :=
+  let outs : list (blk O) := [] in
+  if (samples >=? n) then
+    match concat_list data with
+    | None => None
+    | Some data =>
+      match py_floordiv (zlen (dat data)) (n) with
+      | None => None
+      | Some n_blocks =>
+        let n_samples := (n_blocks * n) in
+        let d := getitem None (Some n_samples) None data in
+        let result := rms_value agg s0div n n_blocks d in
+        match (
+          match an result with
+          | Some result_an =>
+            match an data with
+            | None => None (* AttributeError *)
+            | Some data_an =>
+              let result := set_ch (a_ch data_an) result in
+              let result_an := An (a_s0 result_an) (a_fsd result_an) (a_ch data_an) (a_md result_an) in
+              let out_s0 := (
+                match out_s0 with
+                | None =>
+                  let out_s0 := a_s0 result_an in
+                  out_s0
+                | Some out_s0 =>
+                  out_s0
+                end
+              ) in
+              let result := set_s0 out_s0 result in
+              let out_s0 := s0add out_s0 n_blocks in
+              Some (Some out_s0, result)
+            end
+          | None =>
+            Some (out_s0, result)
+          end
+        ) with
+        | None => None
+        | Some (out_s0, result) =>
+          let outs := outs ++ [result] in
+          let d := getitem (Some n_samples) None None data in
+          let samples := zlen (dat d) in
+          let data := [d] in
+          Some (Some (data, samples, out_s0), outs)
+        end
+      end
+    end
+  else
+    Some (Some (data, samples, out_s0), outs).
+
+Definition rms_gen_step {A O : Type} (agg : list A -> O) (s0div : Z -> Z) (s0add : Z -> Z -> Z) (n : Z) (st : option (list (blk A) * Z * option Z)) (chunk : blk A)
+  : option (option (list (blk A) * Z * option Z) * list (blk O)) :=
+  match st with
+  | None =>
+    let data := [chunk] in
+    let samples := sum_len data in
+    let out_s0 : option Z := None in
+    rms_gen_body agg s0div s0add n (data) (samples) (out_s0)
+  | Some (data, samples, out_s0) =>
+    let data := data ++ [chunk] in
+    match py_last data with
+    | None => None (* IndexError *)
+    | Some data_last =>
+      let samples := samples + zlen (dat data_last) in
+      rms_gen_body agg s0div s0add n (data) (samples) (out_s0)
+    end
+  end.
+
+(* ---------------- pipeline.event_rate (line 1281) ---------------- *)
+Fixpoint event_rate_gen_loop1  (fuel : nat) (block_size : Z) (block_step : Z) (blocks : list events) (evts : events)
+  : option (list events * events) :=
+  if ((e_hi evts - e_lo evts) >? block_size) then
+    match fuel with
+    | O => None (* the loop does not terminate *)
+    | S fuel =>
+      match get_range evts (e_lo evts) (e_lo evts + block_size) with
+      | None => None
+      | Some block =>
+        let blocks := blocks ++ [block] in
+        let start := (e_lo evts + block_step) in
+        let evts := trim_left evts start in
+        event_rate_gen_loop1 fuel block_size block_step (blocks) (evts)
+      end
+    end
+  else Some (blocks, evts).
+
+Definition event_rate_gen_body  (block_size : Z) (block_step : Z) (evts : events) (s0 : Z)
+  : option (option (events * Z) * list rblk) :=
+  let outs : list rblk := [] in
+  let blocks := [] in
+  match event_rate_gen_loop1 (Z.to_nat (e_hi evts - e_lo evts)) block_size block_step blocks evts with
+  | None => None
+  | Some (blocks, evts) =>
+    match blocks with
+    | _ :: _ =>
+      let rate := map (fun b => zlen (evs b)) blocks in
+      let data := Rb rate s0 block_step in
+      let outs := outs ++ [data] in
+      let s0 := s0 + 2 * zlen rate in
+      Some (Some (evts, s0), outs)
+    | [] =>
+      Some (Some (evts, s0), outs)
+    end
+  end.
+
+Definition event_rate_gen_step  (block_size : Z) (block_step : Z) (st : option (events * Z)) (chunk : events)
+  : option (option (events * Z) * list rblk) :=
+  match st with
+  | None =>
+    let evts := chunk in
+    let s0 := 2 * e_lo evts + block_size in
+    event_rate_gen_body block_size block_step (evts) (s0)
+  | Some (evts, s0) =>
+    match combine_events evts chunk with
+    | None => None
+    | Some evts =>
+      event_rate_gen_body block_size block_step (evts) (s0)
+    end
+  end.
+
+(* ---------------- pipeline.transform (line 485) ---------------- *)
+Definition transform_gen_init {A O : Type} (g : A -> O) : unit :=
+  tt.
+
+Definition transform_gen_step {A O : Type} (g : A -> O) (st : unit) (chunk : blk A)
+  : option (unit * list (blk O)) :=
+  let _ := st in
+  let outs : list (blk O) := [] in
+  let data := chunk in
+  let outs := outs ++ [map_blk g data] in
+  Some (tt, outs).
+
+(* ---------------- pipeline.mc_reference (line 1340) ---------------- *)
+Definition mc_reference_gen_init {A O : Type} (g : A -> O) : unit :=
+  tt.
+
+Definition mc_reference_gen_step {A O : Type} (g : A -> O) (st : unit) (chunk : blk A)
+  : option (unit * list (blk O)) :=
+  let _ := st in
+  let outs : list (blk O) := [] in
+  let data := map_blk g chunk in
+  let outs := outs ++ [data] in
+  Some (tt, outs).
+
+(* ---------------- pipeline.iirfilter (line 580) ---------------- *)
+Definition iirfilter_gen_body {F A : Type} (filt : F -> A -> F * A) (finit : A -> F) (zo : F) (y : blk A)
+  : option (option (F) * list (blk A)) :=
+  let outs : list (blk A) := [] in
+  if (zlen (dat y) =? 0) then
+    Some (Some zo, outs)
+  else
+    let '(y_filt, zo) := lfilter filt zo y in
+    let y_filt := (
+      match an y with
+      | Some y_an =>
+        let y_filt := new_pd y_filt (a_fsd y_an) (a_s0 y_an) (a_ch y_an) (a_md y_an) in
+        y_filt
+      | None =>
+        y_filt
+      end
+    ) in
+    let outs := outs ++ [y_filt] in
+    Some (Some zo, outs).
+
+Definition iirfilter_gen_step {F A : Type} (filt : F -> A -> F * A) (finit : A -> F) (st : option (F)) (chunk : blk A)
+  : option (option (F) * list (blk A)) :=
+  match st with
+  | None =>
+    let y := chunk in
+    if (zlen (dat y) =? 0) then
+      Some (None, []) (* keeps waiting *)
+    else
+      match dat y with
+      | [] => None (* no first sample to scale the state with *)
+      | y_first :: _ =>
+        let zo := finit y_first in
+        iirfilter_gen_body filt finit (zo) y
+      end
+  | Some zo =>
+    iirfilter_gen_body filt finit zo chunk
+  end.
+
 (* ---------------- self-test instances ---------------- *)
 Definition gcheck_discard (d : Z) h s0 sizes got : bool :=
   eqb_outs (outs_of (run (discard_gen_step d) (@discard_gen_init Z d) (inputs h s0 sizes))) got.
@@ -273,3 +471,15 @@ Definition gcheck_derivative h s0 sizes got : bool :=
   eqb_outs (outs_of (run (derivative_gen_step ssub (-1)) None (inputs h s0 sizes))) got.
 Definition gcheck_decimate (q : Z) h s0 sizes got : bool :=
   eqb_outs (outs_of (run (decimate_gen_step sfilt 0 q) None (inputs h s0 sizes))) got.
+Definition gcheck_rms (n : Z) h s0 sizes got : bool :=
+  eqb_outs (outs_of (run (rms_gen_step (sagg n) (fun s => s / n) Z.add n) None (inputs h s0 sizes))) got.
+Definition gcheck_rms_x (n : Z) h s0 sizes got : bool :=
+  eqb_outs (outs_of (run (rms_gen_step (sagg n) (fun s => s) (fun t k => t + n * k) n) None (inputs h s0 sizes))) got.
+Definition gcheck_event_rate (bsz stp : Z) (cs : list events) (got : option (list rblk)) : bool :=
+  eqb_option (eqb_list eqb_rblk) (outs_of (run (event_rate_gen_step bsz stp) None cs)) got.
+Definition gcheck_transform h s0 sizes got : bool :=
+  eqb_outs (outs_of (run (transform_gen_step (fun x : Z => x)) (transform_gen_init (fun x : Z => x)) (inputs h s0 sizes))) got.
+Definition gcheck_mc_reference h s0 sizes got : bool :=
+  eqb_outs (outs_of (run (mc_reference_gen_step (fun x : Z => x)) (mc_reference_gen_init (fun x : Z => x)) (inputs h s0 sizes))) got.
+Definition gcheck_iirfilter h s0 sizes got : bool :=
+  eqb_outs (outs_of (run (iirfilter_gen_step sfilt sfinit) None (inputs h s0 sizes))) got.
